@@ -19,11 +19,19 @@ func ruleNegotiationSymmetry(c *Ctx, rule string) {
 	w := c.W
 	// detection sites
 	n := 0
-	want := map[string]string{ // function -> constructor that must receive the flag
-		"(*pendingChannel).Start":             "newTunnelChannel",
-		"newReverseChannel":                   "newTunnelChannel",
-		"(*TunnelServiceHandler).openTunnel":  "serveTunnel",
-		"(*ReverseTunnelServer).Serve":        "serveTunnel",
+	roleOf := func(fn *ssa.Function) string { // legacy role label of an opening path
+		for _, l := range []string{"(*pendingChannel).Start", "newReverseChannel", "(*TunnelServiceHandler).openTunnel", "(*ReverseTunnelServer).Serve"} {
+			if w.sameFn(fn, w.roleFunc(l)) {
+				return l
+			}
+		}
+		return w.Short(fn)
+	}
+	want := map[string]string{ // opening path -> constructor that must receive the flag
+		"(*pendingChannel).Start":            "newTunnelChannel",
+		"newReverseChannel":                  "newTunnelChannel",
+		"(*TunnelServiceHandler).openTunnel": "serveTunnel",
+		"(*ReverseTunnelServer).Serve":       "serveTunnel",
 	}
 	seenFn := map[string]bool{}
 	for _, fn := range w.Funcs {
@@ -33,17 +41,20 @@ func ruleNegotiationSymmetry(c *Ctx, rule string) {
 				continue
 			}
 			n++
-			name := w.Short(fn)
+			name := roleOf(fn)
 			seenFn[name] = true
 			// the metadata inspected must be what the PEER sent on the tunnel-opening call
 			srcD := desc(cv.Call.Args[0])
 			wantSrc := map[string]string{
 				"(*pendingChannel).Start":            ".Header()#0",
 				"(*ReverseTunnelServer).Serve":       ".Header()#0",
-				"newReverseChannel":                  "metadata.FromIncomingContext(param:stream.Context())#0",
-				"(*TunnelServiceHandler).openTunnel": "metadata.FromIncomingContext(param:stream.Context())#0",
+				"newReverseChannel":                  ".Context())#0",
+				"(*TunnelServiceHandler).openTunnel": ".Context())#0",
 			}[name]
 			okSrc := wantSrc != "" && strings.HasSuffix(srcD, wantSrc)
+			if strings.HasSuffix(wantSrc, ".Context())#0") {
+				okSrc = okSrc && strings.Contains(srcD, "metadata.FromIncomingContext(")
+			}
 			if strings.HasPrefix(srcD, "*alloc:") && strings.Contains(srcD, ".Header()#0") {
 				okSrc = okSrc || strings.Contains(wantSrc, "Header")
 			}
@@ -77,8 +88,7 @@ func ruleNegotiationSymmetry(c *Ctx, rule string) {
 				if !ok {
 					return
 				}
-				f := staticCallee(call2)
-				if f == nil || f.Name() != ctor {
+				if !w.isRoleCall(call2, ctor) {
 					return
 				}
 				for _, a := range call2.Call.Args {
@@ -108,7 +118,7 @@ func ruleNegotiationSymmetry(c *Ctx, rule string) {
 	// attach sites
 	att := 0
 	for _, name := range []string{"(*pendingChannel).Start", "(*ReverseTunnelServer).Serve"} {
-		fn := w.Func(name)
+		fn := w.roleFunc(name)
 		if fn == nil {
 			c.fail(rule, name, "-", "not found")
 			continue
@@ -141,7 +151,7 @@ func ruleNegotiationSymmetry(c *Ctx, rule string) {
 		c.check(ok, rule, name+": attaches the negotiate header to the request", posOf(w, fn), "AppendToOutgoingContext(ctx, key, val)", "the client side no longer advertises negotiation: flow control is silently never used")
 	}
 	for _, name := range []string{"(*TunnelServiceHandler).openTunnel", "(*TunnelServiceHandler).openReverseTunnel"} {
-		fn := w.Func(name)
+		fn := w.roleFunc(name)
 		if fn == nil {
 			c.fail(rule, name, "-", "not found")
 			continue
@@ -201,7 +211,7 @@ func ruleRevisionSelection(c *Ctx, r4, r7 string) {
 		return
 	}
 	fn := a.ClientLoop
-	rev := FieldRef{a.Ch.Obj().Name(), "useRevision"}
+	rev := FieldRef{a.Ch.Obj().Name(), w.Roles().ChUseRevision}
 	sts := storesToField(fn, rev)
 	if len(sts) == 0 {
 		// infer: field of the enum type
@@ -212,8 +222,8 @@ func ruleRevisionSelection(c *Ctx, r4, r7 string) {
 		member, greater := false, false
 		for _, f := range boolFactsAt(st) {
 			if call, ok := f.V.(*ssa.Call); ok && f.True {
-				if cal := staticCallee(call); cal != nil && strings.HasPrefix(cal.Name(), "inSlice") && call.Call.Args[0] == st.Val {
-					if sc, ok := origin(call.Call.Args[1]).(*ssa.Call); ok && staticCallee(sc) != nil && strings.Contains(strings.ToLower(staticCallee(sc).Name()), "revision") {
+				if w.isRoleCall(call, "inSlice") && call.Call.Args[0] == st.Val {
+					if sc, ok := origin(call.Call.Args[1]).(*ssa.Call); ok && w.isRoleCall(sc, "supportedRevisions") {
 						member = true
 					}
 				}
@@ -300,7 +310,7 @@ func ruleRevisionSelection(c *Ctx, r4, r7 string) {
 			member := false
 			for _, f := range boolFactsAt(pred.Instrs[len(pred.Instrs)-1]) {
 				if call, ok := f.V.(*ssa.Call); ok && f.True {
-					if cal := staticCallee(call); cal != nil && strings.HasPrefix(cal.Name(), "inSlice") {
+					if w.isRoleCall(call, "inSlice") {
 						member = true
 					}
 				}
@@ -322,12 +332,7 @@ func ruleRevisionSelection(c *Ctx, r4, r7 string) {
 func ruleSupportedRevisions(c *Ctx, rule string) {
 	c.rule(rule, "supportedRevisions honours the option: with flow control disabled it returns exactly [REVISION_ZERO]; otherwise exactly [REVISION_ZERO, REVISION_ONE]")
 	w := c.W
-	var fn *ssa.Function
-	for _, f := range w.Funcs {
-		if f.Parent() == nil && strings.Contains(strings.ToLower(f.Name()), "supportedrevisions") {
-			fn = f
-		}
-	}
+	fn := w.roleFunc("supportedRevisions")
 	if fn == nil {
 		c.fail(rule, "supported-revisions function", "-", "not found")
 		return
@@ -336,7 +341,7 @@ func ruleSupportedRevisions(c *Ctx, rule string) {
 	forEachReturnValue(fn, 0, func(v ssa.Value, at ssa.Instruction) {
 		g := "unconditional"
 		for _, f := range boolFactsAt(at) {
-			if fr, _, ok := loadedField(f.V); ok && strings.Contains(strings.ToLower(fr.Field), "disable") {
+			if fr, _, ok := loadedField(f.V); ok && fr.Field == w.Roles().DisableFlag {
 				g = fmt.Sprintf("disabled=%v", f.True)
 			}
 		}
@@ -360,7 +365,7 @@ func ruleSupportedRevisions(c *Ctx, rule string) {
 		if topFn(f).Name() == "WithDisableFlowControl" {
 			allInstrs(f, func(in ssa.Instruction) {
 				if st, ok := in.(*ssa.Store); ok && isConstBool(st.Val, true) {
-					if fr, _, ok := fieldOfAddr(st.Addr); ok && strings.Contains(strings.ToLower(fr.Field), "disable") {
+					if fr, _, ok := fieldOfAddr(st.Addr); ok && fr.Field == w.Roles().DisableFlag {
 						okOpt = true
 					}
 				}
@@ -373,7 +378,7 @@ func ruleSupportedRevisions(c *Ctx, rule string) {
 	if h != nil {
 		allInstrs(h, func(in ssa.Instruction) {
 			if st, ok := in.(*ssa.Store); ok {
-				if fr, _, ok := fieldOfAddr(st.Addr); ok && strings.Contains(strings.ToLower(fr.Field), "disable") {
+				if fr, _, ok := fieldOfAddr(st.Addr); ok && fr.Field == w.Roles().DisableFlag {
 					if f2, _, ok := loadedField(st.Val); ok && f2.Field == "DisableFlowControl" {
 						okH = true
 					}
@@ -403,7 +408,7 @@ func ruleRevisionZeroFrames(c *Ctx, rule string) {
 					return
 				}
 				f := staticCallee(call)
-				if f == nil || !strings.HasPrefix(f.Name(), "newReceiver") || len(call.Call.Args) != 3 {
+				if f == nil || !w.sameFn(f, w.roleFunc("newReceiver")) || len(call.Call.Args) != 3 {
 					return
 				}
 				if mc, isMC := call.Call.Args[1].(*ssa.MakeClosure); isMC && mc.Fn == e.Fn {
@@ -430,9 +435,9 @@ func ruleRevisionZeroFrames(c *Ctx, rule string) {
 			var wantZero *bool
 			t, fl := true, false
 			switch {
-			case f.Name() == "newSender" || (strings.HasPrefix(f.Name(), "newReceiver") && len(call.Call.Args) == 3):
+			case w.sameFn(f, w.roleFunc("newSender")) || w.sameFn(f, w.roleFunc("newReceiver")):
 				wantZero = &fl
-			case strings.HasSuffix(f.Name(), "WithoutFlowControl") || strings.Contains(f.Name(), "WithoutFlowControl["):
+			case w.sameFn(f, w.roleFunc("newSenderWithoutFlowControl")) || w.sameFn(f, w.roleFunc("newReceiverWithoutFlowControl")):
 				wantZero = &t
 			default:
 				return
@@ -446,7 +451,7 @@ func ruleRevisionZeroFrames(c *Ctx, rule string) {
 				}
 				k, isK := constInt(y)
 				_, ch := fieldChain(x)
-				isRev := len(ch) >= 1 && (ch[len(ch)-1] == "useRevision" || ch[len(ch)-1] == "ProtocolRevision")
+				isRev := len(ch) >= 1 && (ch[len(ch)-1] == w.Roles().ChUseRevision || ch[len(ch)-1] == "ProtocolRevision")
 				if isRev && isK && k == 0 {
 					v := op == token.EQL
 					if op == token.EQL || op == token.NEQ {
@@ -507,13 +512,15 @@ func ruleRegistryLocks(c *Ctx, rule string) {
 	c.rule(rule, "registry lock discipline: every access to a registry's slice, cursor and latch is under its mutex, and every access to the by-key map under the handler's mutex")
 	w := c.W
 	lf := w.Locks()
+	ro := w.Roles()
+	regT, regMu := regNames(w)
 	n := 0
 	for _, acc := range w.FieldAccesses() {
 		var lock string
 		switch {
-		case acc.Field.Type == "reverseChannels" && acc.Field.Field != "mu":
-			lock = "reverseChannels.mu"
-		case acc.Field.Type == "TunnelServiceHandler" && acc.Field.Field == "reverseByKey":
+		case acc.Field.Type == regT && !isSyncType(fieldTypeOf(w, acc.Field)):
+			lock = regMu
+		case acc.Field.Type == "TunnelServiceHandler" && acc.Field.Field == ro.TSHByKey:
 			lock = "TunnelServiceHandler.mu"
 		default:
 			continue
@@ -535,13 +542,14 @@ func ruleRegistryLocks(c *Ctx, rule string) {
 func rulePick(c *Ctx, rule string) {
 	c.rule(rule, "round-robin pick: under the registry mutex, with a non-empty list, the cursor is advanced by exactly one and wrapped to 0 when it reaches len, and the element returned is the one at the cursor; an empty registry yields nil, which both Invoke and NewStream turn into Unavailable")
 	w := c.W
-	fn := w.Func("(*reverseChannels).pick")
+	fn := w.roleFunc("(*reverseChannels).pick")
 	if fn == nil {
 		c.fail(rule, "pick", "-", "not found")
 		return
 	}
-	idx := FieldRef{"reverseChannels", "idx"}
-	chans := FieldRef{"reverseChannels", "chans"}
+	regT, regMu := regNames(w)
+	idx := FieldRef{regT, w.Roles().RegIdx}
+	chans := FieldRef{regT, w.Roles().RegChans}
 	sts := storesToField(fn, idx)
 	var inc, wrap *ssa.Store
 	for _, st := range sts {
@@ -605,11 +613,11 @@ func rulePick(c *Ctx, rule string) {
 	c.check(okIdx && nonEmpty, rule, "returns the element at the cursor of a non-empty list", posOf(w, fn), "len(chans) != 0; return chans[idx].ch", "the returned element is not chans[idx] read after the wrap on a list known to be non-empty: index out of range, or a tunnel skipped/repeated")
 	lf := w.Locks()
 	if ia != nil && inc != nil {
-		c.check(lf.MustAt(ia).has("reverseChannels.mu") && lf.MustAt(inc).has("reverseChannels.mu"), rule, "one critical section", w.At(ia), "advance and read under the registry mutex", "the cursor advance and the element read are not both under the registry mutex")
+		c.check(lf.MustAt(ia).has(regMu) && lf.MustAt(inc).has(regMu), rule, "one critical section", w.At(ia), "advance and read under the registry mutex", "the cursor advance and the element read are not both under the registry mutex")
 	}
 	// callers: nil -> Unavailable
 	for _, name := range []string{"(multiChannel).Invoke", "(multiChannel).NewStream"} {
-		m := w.Func(name)
+		m := w.roleFunc(name)
 		if m == nil {
 			c.fail(rule, name, "-", "not found")
 			continue
@@ -650,12 +658,13 @@ func ruleLatch(c *Ctx, rule string) {
 	c.rule(rule, "readiness latch typestate: add closes the latch exactly on the 0 -> 1 transition (after the append), remove re-makes it exactly on the 1 -> 0 transition (after the delete), both under the registry mutex; waitForReady snapshots the latch under the mutex and waits with a context alternative; ready reports len > 0")
 	w := c.W
 	lf := w.Locks()
-	add, rm, wfr, rdy := w.Func("(*reverseChannels).add"), w.Func("(*reverseChannels).remove"), w.Func("(*reverseChannels).waitForReady"), w.Func("(*reverseChannels).ready")
+	add, rm, wfr, rdy := w.roleFunc("(*reverseChannels).add"), w.roleFunc("(*reverseChannels).remove"), w.roleFunc("(*reverseChannels).waitForReady"), w.roleFunc("(*reverseChannels).ready")
 	if add == nil || rm == nil || wfr == nil || rdy == nil {
 		c.fail(rule, "registry operations", "-", "add/remove/waitForReady/ready not all found")
 		return
 	}
-	chans, avail := FieldRef{"reverseChannels", "chans"}, FieldRef{"reverseChannels", "avail"}
+	regT, regMu := regNames(w)
+	chans, avail := FieldRef{regT, w.Roles().RegChans}, FieldRef{regT, w.Roles().RegAvail}
 	// add
 	var app *ssa.Store
 	for _, st := range storesToField(add, chans) {
@@ -672,12 +681,21 @@ func ruleLatch(c *Ctx, rule string) {
 		d := desc(app.Val)
 		okEntry = strings.Contains(d, "builtin.append(")
 		allInstrs(add, func(in ssa.Instruction) {
-			if al, ok := in.(*ssa.Alloc); ok && namedOf(al.Type()) != nil && namedOf(al.Type()).Obj().Name() == "reverseChannelEntry" && structOf(al.Type()) != nil {
+			if al, ok := in.(*ssa.Alloc); ok && namedOf(al.Type()) != nil && isRegEntry(w, al.Type()) && structOf(al.Type()) != nil {
 				if _, isArr := derefType(al.Type()).Underlying().(*types.Array); isArr {
 					return
 				}
 				st := storesInto(al)
-				if stripConv(st["ch"]) == ssa.Value(add.Params[1]) && stripConv(st["key"]) == ssa.Value(add.Params[2]) {
+				hasCh, hasKey := false, false
+				for _, sv := range st {
+					if stripConv(sv) == ssa.Value(add.Params[1]) {
+						hasCh = true
+					}
+					if stripConv(sv) == ssa.Value(add.Params[2]) {
+						hasKey = true
+					}
+				}
+				if hasCh && hasKey {
 					okEntry = true
 				} else {
 					okEntry = false
@@ -694,7 +712,7 @@ func ruleLatch(c *Ctx, rule string) {
 		}
 	}
 	okRm := false
-	if mk != nil && lf.MustAt(mk).has("reverseChannels.mu") {
+	if mk != nil && lf.MustAt(mk).has(regMu) {
 		for _, f := range factsAt(mk) {
 			x, op, y, ok := cmpFact(f)
 			if ok {
@@ -714,7 +732,7 @@ func ruleLatch(c *Ctx, rule string) {
 	okDel := false
 	allInstrs(rm, func(in ssa.Instruction) {
 		if b, ok := in.(*ssa.BinOp); ok && b.Op == token.EQL {
-			if _, ch := fieldChain(b.X); len(ch) == 1 && ch[0] == "ch" && stripConv(b.Y) == ssa.Value(rm.Params[1]) {
+			if _, ch := fieldChain(b.X); len(ch) == 1 && stripConv(b.Y) == ssa.Value(rm.Params[1]) {
 				okDel = true
 			}
 		}
@@ -734,7 +752,7 @@ func ruleLatch(c *Ctx, rule string) {
 			if call, ok := st.Chan.(*ssa.Call); ok && call.Call.IsInvoke() && call.Call.Method.Name() == "Done" {
 				hasCtx = true
 			}
-			if ld, ok := st.Chan.(*ssa.UnOp); ok && isFieldLoad(ld, avail) && lf.MustAt(ld).has("reverseChannels.mu") && !lf.MustAt(sel).has("reverseChannels.mu") {
+			if ld, ok := st.Chan.(*ssa.UnOp); ok && isFieldLoad(ld, avail) && lf.MustAt(ld).has(regMu) && !lf.MustAt(sel).has(regMu) {
 				hasLatch = true
 			}
 		}
@@ -758,9 +776,10 @@ func ruleUnregisterAndCallbacks(c *Ctx, r6, r7 string) {
 	c.rule(r6, "unregister removes the channel from the global registry and, using the key returned by that removal, from the by-key registry; registration uses the key computed by the affinity function for this channel, in both registries")
 	c.rule(r7, "callbacks: exactly one call site of the open callback, after both registrations; the close callback is deferred in the same function; neither is in a loop")
 	w := c.W
-	un := w.Func("(*TunnelServiceHandler).unregister")
-	ort := w.Func("(*TunnelServiceHandler).openReverseTunnel")
-	rmF, addF := w.Func("(*reverseChannels).remove"), w.Func("(*reverseChannels).add")
+	ro := w.Roles()
+	un := w.roleFunc("(*TunnelServiceHandler).unregister")
+	ort := w.roleFunc("(*TunnelServiceHandler).openReverseTunnel")
+	rmF, addF := w.roleFunc("(*reverseChannels).remove"), w.roleFunc("(*reverseChannels).add")
 	if un == nil || ort == nil || rmF == nil || addF == nil {
 		c.fail(r6, "unregister / openReverseTunnel", "-", "not found")
 		return
@@ -782,7 +801,7 @@ func ruleUnregisterAndCallbacks(c *Ctx, r6, r7 string) {
 		if lk, isL := origin(second.Call.Args[0]).(*ssa.Lookup); isL {
 			fr2, _, _ := loadedField(lk.X)
 			if ex, isEx := origin(lk.Index).(*ssa.Extract); isEx && ex.Tuple == ssa.Value(first) && ex.Index == 0 {
-				ok6 = fr1.Field == "reverse" && fr2.Field == "reverseByKey" && stripConv(first.Call.Args[1]) == ssa.Value(un.Params[1]) && stripConv(second.Call.Args[1]) == ssa.Value(un.Params[1])
+				ok6 = fr1.Field == ro.TSHReverse && fr2.Field == ro.TSHByKey && stripConv(first.Call.Args[1]) == ssa.Value(un.Params[1]) && stripConv(second.Call.Args[1]) == ssa.Value(un.Params[1])
 			}
 		}
 	}
@@ -791,9 +810,15 @@ func ruleUnregisterAndCallbacks(c *Ctx, r6, r7 string) {
 	okTD := false
 	allInstrs(ort, func(in ssa.Instruction) {
 		if call, ok := in.(*ssa.Call); ok {
-			if f := staticCallee(call); f != nil && f.Name() == "newReverseChannel" {
-				if mc, isMC := call.Call.Args[len(call.Call.Args)-1].(*ssa.MakeClosure); isMC && strings.HasPrefix(mc.Fn.Name(), "unregister") {
-					okTD = true
+			if w.isRoleCall(call, "newReverseChannel") {
+				if mc, isMC := call.Call.Args[len(call.Call.Args)-1].(*ssa.MakeClosure); isMC {
+					if bf, isF := mc.Fn.(*ssa.Function); isF {
+						allInstrs(bf, func(x ssa.Instruction) {
+							if ci, isC := x.(ssa.CallInstruction); isC && w.sameFn(staticCallee(ci), un) {
+								okTD = true
+							}
+						})
+					}
 				}
 			}
 		}
@@ -817,7 +842,7 @@ func ruleUnregisterAndCallbacks(c *Ctx, r6, r7 string) {
 		good := false
 		for _, e := range phi.Edges {
 			if call, ok := e.(*ssa.Call); ok && staticCallee(call) == nil {
-				if fr, _, isF := loadedField(call.Call.Value); isF && fr.Field == "affinityKey" && origin(call.Call.Args[0]) == origin(ad.Call.Args[1]) {
+				if fr, _, isF := loadedField(call.Call.Value); isF && fr.Field == ro.TSHAffinity && origin(call.Call.Args[0]) == origin(ad.Call.Args[1]) {
 					good = true
 				}
 			}
@@ -830,7 +855,7 @@ func ruleUnregisterAndCallbacks(c *Ctx, r6, r7 string) {
 	if okKey {
 		okKey = false
 		for _, ad := range adds {
-			if call, ok := origin(ad.Call.Args[0]).(*ssa.Call); ok && staticCallee(call) != nil && strings.HasPrefix(staticCallee(call).Name(), "reverseChannelsForKey") {
+			if call, ok := origin(ad.Call.Args[0]).(*ssa.Call); ok && w.isRoleCall(call, "(*TunnelServiceHandler).reverseChannelsForKey") {
 				if call.Call.Args[1] == ad.Call.Args[2] {
 					okKey = true
 				}
@@ -845,12 +870,12 @@ func ruleUnregisterAndCallbacks(c *Ctx, r6, r7 string) {
 		switch x := in.(type) {
 		case *ssa.Call:
 			if staticCallee(x) == nil && !x.Call.IsInvoke() {
-				if fr, _, isF := loadedField(x.Call.Value); isF && fr.Field == "onReverseTunnelConnect" {
+				if fr, _, isF := loadedField(x.Call.Value); isF && fr.Field == ro.TSHOnConnect {
 					open = append(open, x)
 				}
 			}
 		case *ssa.Defer:
-			if fr, _, isF := loadedField(x.Call.Value); isF && fr.Field == "onReverseTunnelDisconnect" {
+			if fr, _, isF := loadedField(x.Call.Value); isF && fr.Field == ro.TSHOnDisconnect {
 				closeD = append(closeD, x)
 			}
 		}
@@ -882,6 +907,38 @@ func inLoopPhi(phi *ssa.Phi) bool {
 	for _, p := range phi.Block().Preds {
 		if phi.Block().Dominates(p) {
 			return true
+		}
+	}
+	return false
+}
+
+// regNames: the registry type's name and its mutex ("Type.field").
+func regNames(w *World) (string, string) {
+	ro := w.Roles()
+	if ro.Registry == nil {
+		return "reverseChannels", "reverseChannels.mu"
+	}
+	name := ro.Registry.Obj().Name()
+	st := ro.Registry.Underlying().(*types.Struct)
+	for i := 0; i < st.NumFields(); i++ {
+		if typeIs(st.Field(i).Type(), "sync", "Mutex") {
+			return name, name + "." + st.Field(i).Name()
+		}
+	}
+	return name, name + ".mu"
+}
+
+func isRegEntry(w *World, t types.Type) bool {
+	ro := w.Roles()
+	if ro.Registry == nil {
+		return false
+	}
+	st := ro.Registry.Underlying().(*types.Struct)
+	for i := 0; i < st.NumFields(); i++ {
+		if sl, ok := st.Field(i).Type().Underlying().(*types.Slice); ok {
+			if n, e := namedOf(t), namedOf(sl.Elem()); n != nil && e != nil && n.Obj() == e.Obj() {
+				return true
+			}
 		}
 	}
 	return false
